@@ -23,6 +23,13 @@ type genState struct {
 	features map[int]map[string][]string
 	metaReq  map[string]bool
 	cfg      map[string]any
+	realms   []string       // realm names (multi-realm histories)
+	realmOf  map[int]string // session -> realm
+	stalled  map[int]bool
+	usedMeta map[int]bool // sessions that called a wamp.* procedure (never stalled: known finding F19)
+	smallCap map[int]bool // sessions with a tiny queue: they never subscribe (which of several events of one
+	// action overflows depends on Go map iteration order)
+	closed   bool
 }
 
 var topics = []string{"a", "a.b", "a.b.c", "a.c", "b", "x.y", "a.b.c.d"}
@@ -44,7 +51,8 @@ var roleFeatures = map[string][]string{
 
 func newGen(rng *hcommon.RNG, prop string) *genState {
 	return &genState{rng: rng, prop: prop, nextKey: 1, nextReq: map[int]int{}, subs: map[int][]int{}, regs: map[int][]int{},
-		invs: map[int][]int{}, calls: map[int][]int{}, features: map[int]map[string][]string{}, metaReq: map[string]bool{}}
+		invs: map[int][]int{}, calls: map[int][]int{}, features: map[int]map[string][]string{}, metaReq: map[string]bool{},
+		realmOf: map[int]string{}, stalled: map[int]bool{}, usedMeta: map[int]bool{}, smallCap: map[int]bool{}}
 }
 
 func (g *genState) config() map[string]any {
@@ -80,6 +88,17 @@ func (g *genState) config() map[string]any {
 		}
 		cfg["authz"] = rules
 		cfg["localAuthz"] = r.Chance(1, 2)
+	}
+	g.realms = []string{"r1"}
+	if g.prop == "C11" || g.prop == "C06" || r.Chance(1, 10) {
+		// a second realm with the same URIs in use; its own settings
+		cfg2 := map[string]any{"uri": "r2", "strict": false, "disclose": r.Chance(1, 2), "metaKill": r.Chance(3, 4),
+			"metaModify": r.Chance(1, 2), "metaStrict": false}
+		if hs, ok := cfg["history"]; ok && r.Chance(1, 2) {
+			cfg2["history"] = hs
+		}
+		g.realms = append(g.realms, "r2")
+		cfg = map[string]any{"realms": []any{cfg, cfg2}}
 	}
 	g.cfg = cfg
 	return cfg
@@ -155,7 +174,17 @@ func (g *genState) joinOp() map[string]any {
 	}
 	g.features[k] = feats
 	g.live = append(g.live, k)
-	return map[string]any{"op": "join", "s": k, "local": local, "hello": hello, "details": details, "roles": roles, "cap": 64}
+	realm := "r1"
+	if len(g.realms) > 0 {
+		realm = hcommon.Pick(r, g.realms)
+	}
+	g.realmOf[k] = realm
+	capacity := 64
+	if g.prop == "C07" && r.Chance(1, 2) {
+		capacity = 1 + r.Intn(3)
+		g.smallCap[k] = true
+	}
+	return map[string]any{"op": "join", "s": k, "realm": realm, "local": local, "hello": hello, "details": details, "roles": roles, "cap": capacity}
 }
 
 func (g *genState) payload() ([]any, map[string]any) {
@@ -258,8 +287,71 @@ func (g *genState) next() map[string]any {
 	}
 	k := g.anySession()
 	msg := func(m ...any) map[string]any { return map[string]any{"op": "msg", "s": k, "m": m} }
+	if (g.prop == "C06" || g.prop == "C11") && r.Chance(1, 25) {
+		switch r.Intn(4) {
+		case 0:
+			if g.prop == "C06" {
+				g.live = nil
+				g.closed = true
+				return map[string]any{"op": "close"}
+			}
+		case 1:
+			name := hcommon.Pick(r, []string{"r2", "r2", "r3", "r1"})
+			var keep []int
+			for _, x := range g.live {
+				if g.realmOf[x] != name {
+					keep = append(keep, x)
+				}
+			}
+			g.live = keep
+			for i, n := range g.realms {
+				if n == name {
+					g.realms = append(g.realms[:i:i], g.realms[i+1:]...)
+					break
+				}
+			}
+			return map[string]any{"op": "removeRealm", "realm": name}
+		case 2:
+			name := hcommon.Pick(r, []string{"r2", "r3", "bad realm"})
+			ok := name != "bad realm"
+			for _, n := range g.realms {
+				if n == name {
+					ok = false
+				}
+			}
+			if ok && !g.closed {
+				g.realms = append(g.realms, name)
+			}
+			return map[string]any{"op": "addRealm", "cfg": map[string]any{"uri": name, "disclose": true, "metaKill": true}}
+		}
+	}
+	if len(g.realms) == 0 || g.closed {
+		if r.Chance(1, 2) {
+			return map[string]any{"op": "tick", "ms": 1000}
+		}
+		op := g.joinOp() // refused: no realm / router closed
+		g.remove(int(num(op["s"])))
+		if len(g.realms) == 0 {
+			op["realm"] = "r1"
+		}
+		return op
+	}
+	if g.prop == "C07" && r.Chance(1, 8) {
+		// stall or resume a session (never one that used the meta API: F19)
+		if g.stalled[k] {
+			g.stalled[k] = false
+			return map[string]any{"op": "resume", "s": k}
+		}
+		if !g.usedMeta[k] {
+			g.stalled[k] = true
+			return map[string]any{"op": "stall", "s": k}
+		}
+	}
 	switch w := r.Intn(100); {
 	case w < 14: // SUBSCRIBE
+		if g.smallCap[k] {
+			return map[string]any{"op": "tick", "ms": 1}
+		}
 		o := map[string]any{}
 		_, t := g.matchOpt(o)
 		if r.Chance(1, 10) {
@@ -379,9 +471,13 @@ func (g *genState) next() map[string]any {
 		}
 		return map[string]any{"op": "msg", "s": k, "m": []any{49, pickInt(r, g.calls[k], 1+r.Intn(6)), o}}
 	case w < 92: // meta procedure call
+		if g.stalled[k] {
+			return map[string]any{"op": "tick", "ms": hcommon.Pick(r, []int{1, 2, 4, 1000})}
+		}
+		g.usedMeta[k] = true
 		return g.metaCall(k)
 	case w < 94:
-		return map[string]any{"op": "tick", "ms": hcommon.Pick(r, []int{1, 49, 50, 51, 100, 1000, 5000})}
+		return map[string]any{"op": "tick", "ms": hcommon.Pick(r, []int{1, 49, 50, 51, 100, 1000, 5000, 70000})}
 	case w < 96:
 		g.remove(k)
 		if r.Chance(1, 2) {
